@@ -111,10 +111,19 @@ def run(repo: Repo, chk: Check, thorough: bool = False) -> None:
         tgt = norm(c.func.value) if isinstance(c.func, ast.Attribute) else ''
         jp = c.func.value if isinstance(c.func, ast.Attribute) and isinstance(c.func.value, ast.Call) and call_name(c.func.value) == 'joinpath' else None
         arg = jp.args[0] if jp is not None and len(jp.args) == 1 else None
-        ok = 'build_directory' in tgt and isinstance(arg, ast.Attribute) and isinstance(arg.value, ast.Name) and arg.attr in ('url', 'filename')
+        # links carry the percent-encoded url (Documentable.url applies quote()); whoever follows a link decodes it, so the file on disk
+        # must bear the DECODED name: build_directory / unquote(ob.url).  Fixed page names are plain constants.
+        url_quotes = any(isinstance(x, ast.Call) and call_name(x) == 'quote' for x in url.walk())
+        decoded = isinstance(arg, ast.Call) and call_name(arg) == 'unquote' and len(arg.args) == 1
+        inner = arg.args[0] if decoded else arg
+        is_url = isinstance(inner, ast.Attribute) and isinstance(inner.value, ast.Name) and inner.attr == 'url'
+        is_fixed = isinstance(inner, ast.Attribute) and isinstance(inner.value, ast.Name) and inner.attr == 'filename' and not decoded
+        ok = 'build_directory' in tgt and (is_fixed or (is_url and (decoded or not url_quotes)))
         chk.ob('R11.1', f'{f.qn} :: opens {tgt[:50]}', ok,
-               'page file = build_directory / <url used by links>' if ok else
-               'a page is written under a name that is not the url links are built from', repo.loc(f.mod, c))
+               ('page file = build_directory / the decoded form of the url links are built from' if is_url else 'fixed page name') if ok else
+               ('the page is written under the percent-encoded url itself: for a name with a non-ASCII character (class Café) links say `Caf%C3%A9.html`, '
+                'which resolves to `Café.html`, but the file is literally called `Caf%C3%A9.html` - every link to it is dead' if is_url else
+                'a page is written under a name that is not the url links are built from'), repo.loc(f.mod, c))
     chk.require('R11.1', 6)
 
     # ------------------------------------------------------------------ R11.2
